@@ -95,8 +95,11 @@ def flags_of(wrapper):
 def run_pit(case, ctx):
     rng = random.Random(case['prog_seed'])
     if case['kind'] == 'pit-reuse':
+        pre = case['with_bn'] and (case['seed'] // 16) % 2 == 1
         prog = pitgen.reuse_program(rng, case['family'], case['same'], case['with_bn'],
-                                    pre_bn_consumer=case['with_bn'] and (case['seed'] // 16) % 2 == 1)
+                                    pre_bn_consumer=pre,
+                                    bn_variant=None if pre else
+                                    [None, 'one-site', None, 'two-bns'][(case['seed'] // 3) % 4])
     elif case['kind'] == 'pit-manual':
         prog = pitgen.manual_program(rng, case['family'])
     else:
